@@ -157,3 +157,39 @@ func VerifLemma_C05C_VersionPackage() {
 	}
 	verifAssert(ok == ref.ok, "package accepted iff last component is a version")
 }
+
+// lvKeywords are the concrete middles of the shaped lemma: the documented stability words, with and without a
+// patch part, and near-misses (zero patch, missing patch number, two words, word followed by "test", ...).
+var lvKeywords = []string{
+	"alpha", "beta", "test", "p1alpha", "p1beta", "p0beta", "palpha", "alphabeta", "alphatest", "testalpha", "p1test", "alpha1beta",
+}
+
+// VerifLemma_C05C_VersionShaped: the long documented forms ("v1alpha1", "v1p1beta2", "v1testfoo" need 8-9 bytes) at
+// an affordable cost: c = "v" + a + K + b with K any of lvKeywords (structural choice) and a, b *every* string over
+// [A-Za-z0-9_] of length 0..A / 0..B. Same assertion as VerifLemma_C05C_VersionComponent.
+func VerifLemma_C05C_VersionShaped() {
+	k := lvKeywords[verifNondetChoice(len(lvKeywords))]
+	a := verifNondetString(verifParam("A"))
+	for i := 0; i < len(a); i++ {
+		verifAssume(lvIsPkgByte(a[i]))
+	}
+	b := verifNondetString(verifParam("B"))
+	for i := 0; i < len(b); i++ {
+		verifAssume(lvIsPkgByte(b[i]))
+	}
+	c := "v" + a + k + b
+	pv, ok := NewPackageVersionForComponent(c)
+	verifCover("parsed")
+	ref := lvRefComponent(c)
+	if ok {
+		verifCover("accepted")
+	}
+	verifAssert(ok == ref.ok, "component accepted iff it has a documented version form")
+	if !ok || !ref.ok {
+		return
+	}
+	verifAssert(pv.StabilityLevel() == ref.level, "stability level matches the form")
+	verifAssert((pv.Patch() > 0) == ref.hasPatch, "patch present iff pN part")
+	verifAssert((pv.Minor() > 0) == ref.hasMinor, "minor present iff digits after alpha/beta")
+	verifAssert(len(pv.Suffix()) == ref.suffixLen, "test suffix length")
+}
